@@ -189,7 +189,9 @@ func (c *TermCtx) preInstantiateOpt(assumptions []*Term, goal *Term, rounds, max
 				continue
 			}
 			for _, sk := range sks {
-				if sk.Sort != s.q.BVars[0].Sort {
+				if sk.Sort != s.q.BVars[0].Sort || skBase(sk.Name) != bvBase(s.q.BVars[0].Name) {
+					// same variable name as the skolemised goal variable: the same invariant (or a
+					// sibling clause) in another state; everything else is found by trigger matching
 					continue
 				}
 				b := map[*Term]*Term{s.q.BVars[0]: sk}
@@ -530,4 +532,21 @@ func coneOfInfluence(assumptions []*Term, goal *Term, depth int) []*Term {
 		}
 	}
 	return out
+}
+
+
+// skBase / bvBase: the source-level variable name behind a skolem constant (sk$k!3) / a bound variable (k?7).
+func skBase(n string) string {
+	n = strings.TrimPrefix(n, "sk$")
+	if i := strings.IndexAny(n, "!?"); i >= 0 {
+		n = n[:i]
+	}
+	return n
+}
+
+func bvBase(n string) string {
+	if i := strings.IndexAny(n, "!?"); i >= 0 {
+		n = n[:i]
+	}
+	return n
 }
